@@ -509,6 +509,35 @@ fn expand_range_assertion(value_expr: &TokenStream, pattern: &PatternRange) -> T
         pattern.node_id,
     );
 
+    // A `match` range pattern only accepts literals and paths to constants as bounds,
+    // so `1..=limit` with a local `limit`, or `0..MAX + 1`, does not compile. A constant
+    // cannot be told apart from a local here, so whenever a bound is not a plain literal
+    // check the bounds with `PartialOrd` instead, the same way comparison patterns do.
+    if let syn::Expr::Range(r) = range {
+        let start = r.start.as_deref();
+        let end = r.end.as_deref();
+
+        if !start.into_iter().chain(end).all(is_literal_bound) {
+            let lower = start.map(|s| quote_spanned! {span=> (#value_expr).ge(&(#s)) });
+            let upper = end.map(|e| match r.limits {
+                syn::RangeLimits::HalfOpen(_) => quote_spanned! {span=> (#value_expr).lt(&(#e)) },
+                syn::RangeLimits::Closed(_) => quote_spanned! {span=> (#value_expr).le(&(#e)) },
+            });
+            let in_range = match (lower, upper) {
+                (Some(lower), Some(upper)) => quote_spanned! {span=> #lower && #upper },
+                (Some(bound), None) | (None, Some(bound)) => bound,
+                (None, None) => quote!(true),
+            };
+
+            return quote_spanned! {span=>
+                #[allow(clippy::nonminimal_bool)]
+                if !(#in_range) {
+                    #error_push
+                }
+            };
+        }
+    }
+
     quote_spanned! {span=>
         match &#value_expr {
             #range => {},
@@ -516,6 +545,20 @@ fn expand_range_assertion(value_expr: &TokenStream, pattern: &PatternRange) -> T
                 #error_push
             }
         }
+    }
+}
+
+/// Whether a range bound can be written as-is in a `match` range pattern: a literal or
+/// a negated literal (`18`, `0.5`, `'a'`, `-100`).
+fn is_literal_bound(bound: &syn::Expr) -> bool {
+    match bound {
+        syn::Expr::Lit(_) => true,
+        syn::Expr::Unary(syn::ExprUnary {
+            op: syn::UnOp::Neg(_),
+            expr,
+            ..
+        }) => matches!(**expr, syn::Expr::Lit(_)),
+        _ => false,
     }
 }
 
